@@ -21,7 +21,13 @@ const (
 	longMsgHeader7ByteFrameKey   = byte(0x06)
 	longMsgHeader7ByteFrameTotal = byte(0x08)
 	longMsgHeader7ByteFrameNum   = byte(0x04)
+
+	// total and index of a concatenated SMS are one octet each
+	maxLongSmsParts = 255
 )
+
+// ErrTooManyParts is returned when a message needs more parts than the concatenation header can count.
+var ErrTooManyParts = fmt.Errorf("content needs more than %d parts", maxLongSmsParts)
 
 // ParseLongSmsContent parses the header of a concatenated SMS.
 // frameKey: Unique identifier for this batch of messages
@@ -79,6 +85,10 @@ func EncodeCMPPContentAndSplit(ctx context.Context, content string, msgFmt datac
 	// short message
 	if len(encodedData) <= maxLongLength {
 		return [][]byte{encodedData}, actualMsgFmt, nil
+	}
+
+	if ceil(len(encodedData), perMsgLength) > maxLongSmsParts {
+		return nil, 0, ErrTooManyParts
 	}
 
 	return splitWithUDHI(encodedData, perMsgLength, frameKey), actualMsgFmt, nil
@@ -144,6 +154,10 @@ func EncodeSMPPContentAndSplit(ctx context.Context, content string, msgFmt datac
 		return [][]byte{encodedData}, actualMsgFmt, nil
 	}
 
+	if ceil(len(encodedData), perMsgLength) > maxLongSmsParts {
+		return nil, 0, ErrTooManyParts
+	}
+
 	return splitWithUDHI(encodedData, perMsgLength, frameKey), actualMsgFmt, nil
 }
 
@@ -207,6 +221,9 @@ func encodeAndSplitGSM7Packed(content string, frameKey byte) ([][]byte, datacodi
 		begin = end
 	}
 	msgCount := len(ends)
+	if msgCount > maxLongSmsParts {
+		return nil, 0, ErrTooManyParts
+	}
 	res := make([][]byte, 0, msgCount)
 
 	begin := 0
